@@ -142,11 +142,16 @@ impl State for FileState {
                 .with_error_context(|error| format!("{FILE_STATE_PARSE_ERROR} index. {error}"))
                 .map_err(|_| IggyError::InvalidNumberEncoding)?;
             total_size += 8;
-            if entries_count > 0 && index != current_index + 1 {
+            // The first entry has index 0: a journal that lost its beginning is not a valid history.
+            let expected_index = if entries_count == 0 {
+                0
+            } else {
+                current_index + 1
+            };
+            if index != expected_index {
                 error!(
                     "State file is corrupted, expected index: {}, got: {}",
-                    current_index + 1,
-                    index
+                    expected_index, index
                 );
                 return Err(IggyError::StateFileCorrupted);
             }
